@@ -17,6 +17,8 @@ EXCEPTIONS = set(EXC_PARENT)
 # class name -> (record kind, bases) ; used for isinstance and construction
 CLASSES = {
     'cat.Ob': ('ob', []),
+    'cat.Quiver': ('record', []), 'cat.Functor': ('record', []), 'monoidal.Functor': ('record', ['cat.Functor']),
+    'rigid.Functor': ('record', ['monoidal.Functor']), 'cartesian.PythonFunctor': ('record', ['rigid.Functor']),
     'cat.Arrow': ('arrow', []),
     'cat.Id': ('arrow', ['cat.Arrow']),
     'cat.Box': ('box', ['cat.Arrow']),
@@ -67,7 +69,7 @@ BOX_KIND_OF_CLASS = {'monoidal.Swap': 'Swap', 'rigid.Swap': 'Swap', 'rigid.Cup':
 # names visible in each module (the module's own imports and definitions)
 MODULE_NAMES = {
     'cat': {'Ob': 'cat.Ob', 'Arrow': 'cat.Arrow', 'Id': 'cat.Id', 'Box': 'cat.Box', 'Sum': 'cat.Sum',
-            'Bubble': 'cat.Bubble'},
+            'Bubble': 'cat.Bubble', 'Quiver': 'cat.Quiver'},
     'monoidal': {'Ob': 'cat.Ob', 'Ty': 'monoidal.Ty', 'PRO': 'monoidal.PRO', 'Layer': 'monoidal.Layer',
                  'Diagram': 'monoidal.Diagram', 'Id': 'monoidal.Id', 'Box': 'monoidal.Box',
                  'Swap': 'monoidal.Swap', 'Sum': 'monoidal.Sum', 'Bubble': 'monoidal.Bubble'},
@@ -186,6 +188,8 @@ class World:
             return VBuiltin(name, SPEC_PRIMS[name])
         if name in ('int', 'slice', 'list', 'tuple', 'bool', 'str', 'float', 'set', 'dict', 'type'):
             return VClass('py.' + name)
+        if name == 'Mapping' and mod == 'cat':
+            return VClass('py.Mapping')
         raise Unsupported('unknown name %s in %s' % (name, frame.qualname if frame else '?'))
 
     def do_import(self, s, env):
@@ -656,8 +660,10 @@ class World:
             ex.used.add('lemma:functor.homomorphism')
         if getattr(F, 'python', False):
             ex.used.add('lemma:cartesian.Diagram.__call__.quivers')       # the two lambdas, executed from the real AST
-            ex.used.add('axiom: PythonFunctor(ob, ar) applies ob to one-object types and ar to boxes '
-                        '(Quiver.__getitem__ calls the function; PythonFunctor.__init__ sets ob_factory=PRO, ar_factory=Function)')
+            # the plumbing from PythonFunctor(ob, ar) to the calls ob(type), ar(box): constructors, Functor.ob / .ar, Quiver
+            for u in ('cartesian.PythonFunctor.__init__', 'rigid.Functor.__init__', 'monoidal.Functor.__init__',
+                      'cat.Functor.__init__', 'cat.Quiver.__init__', 'lemma:cat.Quiver.wraps'):
+                ex.used.add(u)
         if getattr(F, 'adjoints', False):
             # F(t.l) == F(t).l, F(t.r) == F(t).r: lemmas by snoc-induction from the object-level statement
             for u in ('lemma:functor.adjoint.object.l', 'lemma:functor.adjoint.object.r', 'lemma:functor.adjoint.type.l',
@@ -1036,6 +1042,8 @@ class World:
                 return VDiagram(a['_dom'], a['_cod'], a['_boxes'], VList(offs.segs, False), a['_layers'])
             if kind == 'layer':
                 return VLayer(a['_left'], a['_box'], a['_right'])
+            if kind == 'record':
+                return obj
             if kind == 'box' and cls in ('monoidal.Box', 'rigid.Box'):
                 return obj          # a plain box as the record of its fields (name, dom, cod, data, dagger flag, ...)
         except KeyError as e:
@@ -1058,6 +1066,8 @@ SUPER = {
     ('rigid.Cup', '__init__'): 'rigid.Box.__init__', ('rigid.Cap', '__init__'): 'rigid.Box.__init__',
     ('monoidal.Swap', '__init__'): 'monoidal.Box.__init__',
     ('cartesian.Function', '__init__'): 'rigid.Box.__init__',
+    ('monoidal.Functor', '__init__'): 'cat.Functor.__init__', ('rigid.Functor', '__init__'): 'monoidal.Functor.__init__',
+    ('cartesian.PythonFunctor', '__init__'): 'rigid.Functor.__init__',
 }
 
 
@@ -1106,6 +1116,8 @@ def _isinstance1(interp, v, nm):
         return z3.BoolVal(v.cls == 'tuple')
     if nm in ('py.list', 'py.tuple'):
         return z3.BoolVal(isinstance(v, (VList, VTuple)))
+    if nm == 'py.Mapping' and isinstance(v, (VClosure, VBuiltin, VPyFun)):
+        return z3.BoolVal(False)        # a python function is not a Mapping
     if nm.startswith('py.'):
         raise Unsupported('isinstance ' + nm)
     kind = CLASSES.get(nm, (None,))[0]
